@@ -2,7 +2,7 @@
 import itertools, random
 import engine, ops, vlib
 
-PROOFS = []
+PROOFS = ["Properties_C09"]
 SKIP = set()
 
 
